@@ -55,3 +55,72 @@ pub fn url_decode(url: &str) -> Result<DecodedUrl> {
         connection_timeout: options.connection_timeout,
     })
 }
+
+/// Pass log of the I/O loop (`IoLoop::run_io_loop`): the loop notes every entry and every pass
+/// (after `poll` returned, before the events are handled); a harness transport may add its own
+/// notes (re-registrations, reads, writes) so that one ordered trace results. Off unless enabled.
+pub mod pass_log {
+    use std::sync::atomic::{AtomicBool, Ordering};
+    use std::sync::Mutex;
+
+    static ENABLED: AtomicBool = AtomicBool::new(false);
+    static LOG: Mutex<Vec<String>> = Mutex::new(Vec::new());
+
+    pub fn enable(on: bool) {
+        ENABLED.store(on, Ordering::SeqCst);
+    }
+
+    pub fn note(line: String) {
+        if ENABLED.load(Ordering::SeqCst) {
+            // tagged with the calling thread (one I/O thread per connection)
+            if let Ok(mut log) = LOG.lock() {
+                log.push(format!("{:?} {}", std::thread::current().id(), line));
+            }
+        }
+    }
+
+    pub fn take() -> Vec<String> {
+        match LOG.lock() {
+            Ok(mut log) => std::mem::take(&mut *log),
+            Err(_) => Vec::new(),
+        }
+    }
+
+    pub(crate) fn enter(out_len: usize, have_written: bool) {
+        if ENABLED.load(Ordering::SeqCst) {
+            note(format!("enter {} {}", out_len, have_written as u8));
+        }
+    }
+
+    pub(crate) fn pass(
+        events: &mio::Events,
+        out_len: usize,
+        have_written: bool,
+        listening: bool,
+        high: usize,
+        low: usize,
+    ) {
+        if ENABLED.load(Ordering::SeqCst) {
+            let batch: Vec<String> = events
+                .iter()
+                .map(|e| {
+                    format!(
+                        "{}{}{}",
+                        e.token().0,
+                        if e.readiness().is_readable() { "r" } else { "" },
+                        if e.readiness().is_writable() { "w" } else { "" }
+                    )
+                })
+                .collect();
+            note(format!(
+                "pass {} {} {} {} {} {}",
+                out_len,
+                have_written as u8,
+                listening as u8,
+                high,
+                low,
+                batch.join(",")
+            ));
+        }
+    }
+}
